@@ -263,7 +263,9 @@ func init() {
 		Monitors: func(st *Stats) []Monitor { return []Monitor{NewC17Monitor(st)} }, Cases: tierMap(32, 96), Blocks: tierMap(250, 600),
 		// what an honest proposer builds from a valid extended commit is accepted by every honest validator: a history
 		// that ends because PrepareProposal failed or ProcessProposal rejected the honest proposal violates C17
-		DeathModules: []string{"prepare", "process"},
+		// ... and so does one that ends because the PreBlocker (the handler that writes the accepted vote-extension data
+		// into state) fails or panics on a proposal that was accepted (added after C17-j)
+		DeathModules: []string{"prepare", "process", "preblock"},
 		Opts:         func() AppOpts { return AppOpts{PanicLog: &PanicLog{}} },
 		Setup:        func(c *Chain, st *Stats, r *Rng) { NewProposalLab(st, r, 6).Attach(c) },
 		Finish:       func(c *Chain, g *Gen, mons []Monitor) { finalizeUndecodable(c) }})
